@@ -8,67 +8,67 @@ VERIF = os.path.dirname(os.path.dirname(os.path.abspath(__file__)))
 PBT = "property-based testing"
 D = {
     "C01": ("exploration",
-            "Whole-output equality with an independent top-down renderer on the merged forest. Bounded-exhaustive: every ordered forest with <=5 (quick) / <=8 (thorough) nodes over {a,b} x 6 spellings x 4 branch tuples x both code paths (iterator and slice); random: rapid forests (depth-sequence generator, deep spines of 18..90 levels, wide forests beyond 4 KiB / 64 KiB, names of 4000..60000 bytes, bullets, blanks, Unicode, invalid UTF-8) x random spelling x random branch 4-tuple; thorough adds coverage-guided fuzzing of the generator (rapid.MakeFuzz). Also the mixed root notation (list roots, then # heading roots), names that spell the path of another node (a/a beside a > a, bounded-exhaustively) and parents with 31..300 children followed by a repeat of one of them.",
+            "Whole-output equality with an independent top-down renderer on the merged forest. Bounded-exhaustive: every ordered forest with <=5 (quick) / <=8 (thorough) nodes over {a,b} x 6 spellings x 4 branch tuples x both code paths (iterator and slice); random: rapid forests (depth-sequence generator, deep spines of 18..90 levels, wide forests beyond 4 KiB / 64 KiB, names of 4000..60000 bytes, bullets, blanks, Unicode, invalid UTF-8) x random spelling x random branch 4-tuple; thorough adds coverage-guided fuzzing of the generator (rapid.MakeFuzz). Also the mixed root notation (list roots, then # heading roots), names that spell the path of another node (a/a beside a > a, bounded-exhaustively) and parents with 31..300 children followed by a repeat of one of them. Documents of 17 MiB (quick) / 33 MiB (thorough); U+FFFD in names.",
             "trusts harness/model (Merge, Render, Spell), written from the statement; beyond the enumeration bound the domain is sampled",
             PBT + ": bounded-exhaustive enumeration + rapid generation against a reference-model oracle (whole-output equality)"),
     "C02": ("exploration",
-            "Malformation classes are injected (never recognised) into well-formed spellings: injected => error (format errors must name the row), well-formed => nil and the complete result in text/JSON/YAML/TOML/dry-run/walk, simple and massive mode. Exhaustive over forests <=4/6 nodes x spelling panel x every class at every line (no-bullet with 4 marks incl. '#'); random beyond incl. documents larger than 4 KiB. Names containing / and % in malformed rows and in siblings that spell another node's path.",
+            "Malformation classes are injected (never recognised) into well-formed spellings: injected => error (format errors must name the row), well-formed => nil and the complete result in text/JSON/YAML/TOML/dry-run/walk, simple and massive mode. Exhaustive over forests <=4/6 nodes x spelling panel x every class at every line (no-bullet with 4 marks incl. '#'); random beyond incl. documents larger than 4 KiB. Names containing / and % in malformed rows and in siblings that spell another node's path. The whole input as one row (100..65000 bytes, with/without terminator) through length-aware readers.",
             "the injector builds documents that are malformed by the statement whatever else they contain; in massive mode only 'some error' is required for format errors (which row is named depends on the schedule)",
             PBT + ": fault-injecting generator (one malformation per document) + completeness oracle against the reference renderer/decoders"),
     "C03": ("exploration",
-            "Differential between the two API families: every From-Root operation on a tree built by a generated Add program (all linear extensions for small trees, repeated Adds whose result is reused as parent) equals the From-Markdown result on a spelling of the same tree; repeated Add returns the identical pointer; nil / non-root nodes give the sentinel errors with zero output, callbacks and filesystem effect for all 10 functions; deprecated aliases identical. Walker nodes kept by the caller are re-read after the walk, the same iterator value is ranged over twice, walks run with WithDryRun over hostile names (visit traces compared also when both sides fail), mkdir with a pre-existing root and a name containing /.",
+            "Differential between the two API families: every From-Root operation on a tree built by a generated Add program (all linear extensions for small trees, repeated Adds whose result is reused as parent) equals the From-Markdown result on a spelling of the same tree; repeated Add returns the identical pointer; nil / non-root nodes give the sentinel errors with zero output, callbacks and filesystem effect for all 10 functions; deprecated aliases identical. Walker nodes kept by the caller are re-read after the walk, the same iterator value is ranged over twice, walks run with WithDryRun over hostile names (visit traces compared also when both sides fail), mkdir with a pre-existing root and a name containing /. The sentinel part also hands over a zero-value node.",
             "the Markdown side is the reference (its own correctness is C01/C04/C05/C06/C08); filesystem operations run in per-case jails on tmpfs",
             PBT + ": differential testing between API families over generated build programs (exhaustive linear extensions + rapid)"),
     "C04": ("exploration",
-            "Round-trip through independent decoders (encoding/json with DisallowUnknownFields and one-value-per-line, yaml.v3 multi-document decoder with KnownFields, go-toml/v2) must give back the merged forest; hostile names (quotes, colons, hashes, backslashes, keywords, control characters, Unicode separators, BOM) at every node position of every small shape, random forests beyond. Part wide: a root with 255..10000 children (subtrees below all / every 100th / the trailing children), alone and between small roots; names that look like encoder escapes; earlier operations run as on a colour terminal; thorough: second opinion by python3 decoders.",
+            "Round-trip through independent decoders (encoding/json with DisallowUnknownFields and one-value-per-line, yaml.v3 multi-document decoder with KnownFields, go-toml/v2) must give back the merged forest; hostile names (quotes, colons, hashes, backslashes, keywords, control characters, Unicode separators, BOM) at every node position of every small shape, random forests beyond. Part wide: a root with 255..10000 children (subtrees below all / every 100th / the trailing children), alone and between small roots; names that look like encoder escapes; earlier operations run as on a colour terminal; thorough: second opinion by python3 decoders. The writer may be a terminal (pseudo terminal); names wrapped in colour sequences.",
             "the decoders are the libraries gtree itself links (independent code paths: decoder vs encoder); names are valid UTF-8; the listed known finding (YAML + names containing a line break, yaml.v3) is excluded by construction and counted",
             PBT + ": round-trip oracle through independent decoders (exhaustive hostile-name placement + rapid)"),
     "C05": ("exploration",
-            "Visit sequence compared fact by fact (Row, Branch, Name, Level, Path, HasChild) with the renderer's facts; exactly k+1 callbacks and the identical error object when the callback fails at k; no visit after an iterator break; rows equal the text output. Exhaustive over forests <=5/8 nodes x every stop position x all six entry points (incl. deprecated aliases); random adds deep spines, long names, earlier operations on the same tree and nodes added between creating and ranging over an iterator. The failing callback returns the harness sentinel or a standard-library value (fs.SkipAll, io.EOF, context.Canceled, bufio.ErrTooLong ...); kept nodes are re-read after the walk; the iterator is ranged over twice; a second walk of the same tree runs (or is abandoned) while the first is at visit k.",
+            "Visit sequence compared fact by fact (Row, Branch, Name, Level, Path, HasChild) with the renderer's facts; exactly k+1 callbacks and the identical error object when the callback fails at k; no visit after an iterator break; rows equal the text output. Exhaustive over forests <=5/8 nodes x every stop position x all six entry points (incl. deprecated aliases); random adds deep spines, long names, earlier operations on the same tree and nodes added between creating and ranging over an iterator. The failing callback returns the harness sentinel or a standard-library value (fs.SkipAll, io.EOF, context.Canceled, bufio.ErrTooLong ...); kept nodes are re-read after the walk; the iterator is ranged over twice; a second walk of the same tree runs (or is abandoned) while the first is at visit k. The caller appends to its option slice after an iterator was made; walk / grow / another operation / walk again.",
             "names are single valid path elements (the statement defines Path only for those)",
             PBT + ": reference-model oracle + differential (walk rows vs text output), exhaustive stop positions + rapid"),
     "C06": ("exploration",
-            "Set algebra on before/after snapshots of a jail: created == node paths exactly, nothing else removed or changed, kind rule (childless + suffix => empty regular file), pre-existing root => ErrExistPath and no diff, OS refusals (256-byte name, target is a file, parent is a file) => error and no stray entries. Exhaustive over forests <=4/6 nodes over {a,b,ab} x 7 extension lists (incl. prefix-related and repeated extensions); random with extension lists cut from the generated names, and earlier operations (incl. a real Mkdir elsewhere) on the same From-Root tree. Part fs-fault: the target is a tmpfs with room for exactly k entries, for EVERY k from 0 to the number of node paths (ENOSPC at the k+1-th creation must be an error; what exists is a subset of the node paths of the right kind). Also 9..40 roots with hidden names, targets named ~t, odd target modes (0700, 1777, 2775), a root name held by a dangling symbolic link.",
+            "Set algebra on before/after snapshots of a jail: created == node paths exactly, nothing else removed or changed, kind rule (childless + suffix => empty regular file), pre-existing root => ErrExistPath and no diff, OS refusals (256-byte name, target is a file, parent is a file) => error and no stray entries. Exhaustive over forests <=4/6 nodes over {a,b,ab} x 7 extension lists (incl. prefix-related and repeated extensions); random with extension lists cut from the generated names, and earlier operations (incl. a real Mkdir elsewhere) on the same From-Root tree. Part fs-fault: the target is a tmpfs with room for exactly k entries, for EVERY k from 0 to the number of node paths (ENOSPC at the k+1-th creation must be an error; what exists is a subset of the node paths of the right kind). Also 9..40 roots with hidden names, targets named ~t, odd target modes (0700, 1777, 2775), a root name held by a dangling symbolic link. A root name held by a symbolic link to itself; option values built under another working directory; over-long FILE nodes with unclean target spellings.",
             "tmpfs jail per case; OS refusals limited to what root can provoke on tmpfs (ENAMETOOLONG, ENOTDIR, ENOSPC through a mounted tmpfs when the process may mount; no EACCES); in massive mode only the success clauses are required (see known findings of C10)",
             PBT + ": filesystem snapshot diff oracle (set algebra) over generated forests, extension lists and directory states"),
     "C07": ("exploration",
-            "Every Mkdir call runs in a chrooted worker; the snapshot covers the whole chroot, so anything touched outside <jail>/work/target is a violation ('..' chains of any length are harmless for the sandbox). Names that cannot be a single path element ('', '.', '..', containing '/', NUL) => error and, without massive, nothing created; benign controls must succeed. Exhaustive: every hostile name at every position of every shape <=4/5 nodes x {md, root} x {dry, real}. Part wide: roots with 200..4100 children and one hostile name; part big-input: documents of 70 kB..9 MB through *bytes.Reader / regular-file readers; seekable readers positioned behind an earlier hostile section; hostile names added after earlier operations on the same tree.",
+            "Every Mkdir call runs in a chrooted worker; the snapshot covers the whole chroot, so anything touched outside <jail>/work/target is a violation ('..' chains of any length are harmless for the sandbox). Names that cannot be a single path element ('', '.', '..', containing '/', NUL) => error and, without massive, nothing created; benign controls must succeed. Exhaustive: every hostile name at every position of every shape <=4/5 nodes x {md, root} x {dry, real}. Part wide: roots with 200..4100 children and one hostile name; part big-input: documents of 70 kB..9 MB through *bytes.Reader / regular-file readers; seekable readers positioned behind an earlier hostile section; hostile names added after earlier operations on the same tree. Relative target spellings.",
             "the worker process confines itself with chroot(2) (we run as root); must-reject classes are derived from POSIX, not from gtree's validator; invalid UTF-8 and over-long names are don't-care for rejection",
             PBT + ": confinement oracle on a chroot-wide snapshot, exhaustive hostile-name placement + rapid"),
     "C08": ("exploration",
-            "missing/extra sets are computed from the snapshot (not with fs.WalkDir) and compared with the parsed error text: verdict iff, soundness of every listed path, exactness for the first differing root, purity (no diff), Mkdir(exts) -> Verify strict. Exhaustive: all subsets of node paths removed for forests <=4/5 nodes x strict x extra entry. Also verify / grow below a non-root node / verify again, targets named t and ~t, extra entries with non-UTF-8 names, and the file system root as target (/, //, /., /x/.. in the chrooted worker).",
+            "missing/extra sets are computed from the snapshot (not with fs.WalkDir) and compared with the parsed error text: verdict iff, soundness of every listed path, exactness for the first differing root, purity (no diff), Mkdir(exts) -> Verify strict. Exhaustive: all subsets of node paths removed for forests <=4/5 nodes x strict x extra entry. Also verify / grow below a non-root node / verify again, targets named t and ~t, extra entries with non-UTF-8 names, and the file system root as target (/, //, /., /x/.. in the chrooted worker). Part wide: root directories with 1023..4100 entries.",
             "directory states are built from the tree (removal, kind flips, extras at any depth) or by gtree's own Mkdir; in massive mode only soundness is required (which root is reported depends on the schedule)",
             PBT + ": independent set-difference oracle over generated directory states + Mkdir->Verify round trip"),
     "C09": ("exploration",
-            "Dry run and a real Mkdir of the same forest run in fresh chroot jails: no filesystem diff, report == renderer + per-root counts, counts == entries the real run created beneath each root, dry error iff real error (names only). Routes: OutputFromMarkdown+dry-run (CLI route), MkdirFromRoot+dry-run, simple and massive. Also the non-iterator path, extension lists of 8..12 values incl. compound ones and path tails across a separator, and dry runs against a target file system without room for a single entry.",
+            "Dry run and a real Mkdir of the same forest run in fresh chroot jails: no filesystem diff, report == renderer + per-root counts, counts == entries the real run created beneath each root, dry error iff real error (names only). Routes: OutputFromMarkdown+dry-run (CLI route), MkdirFromRoot+dry-run, simple and massive. Also the non-iterator path, extension lists of 8..12 values incl. compound ones and path tails across a separator, and dry runs against a target file system without room for a single entry. Dry runs with colours enabled (every name verbatim between colour sequences); From-Root names with line breaks.",
             "the route MkdirFromMarkdown+WithDryRun is a listed known finding (ignores the option), excluded by construction and probed on every run; over-long names are treated as OS refusal, not as a name rejection",
             PBT + ": purity (snapshot diff) + prediction oracle (dry-run report vs real Mkdir snapshot), exhaustive small forests + rapid"),
     "C10": ("exploration",
-            "Differential: the simple-mode result of the same input is the reference (so malformed and mutated documents are in scope): error iff; text/dry-run output is a permutation of simple's per-root blocks (cut by the simple walk's line counts); JSON lines / YAML documents equal as multisets; walk visits equal with order preserved inside a root; mkdir snapshots equal; verify verdict equal. Schedules are perturbed (GOMAXPROCS, reader chunking, yielding writer/callback, Gosched/sleep at 22 hook points). Also failing callbacks (error iff and identical error), reader/writer dynamic types (io.WriterTo, io.StringWriter, *bytes.Reader, regular file, *bufio.Reader, *bytes.Buffer), walker nodes re-read after the walk, mkdir on a file system that runs full.",
+            "Differential: the simple-mode result of the same input is the reference (so malformed and mutated documents are in scope): error iff; text/dry-run output is a permutation of simple's per-root blocks (cut by the simple walk's line counts); JSON lines / YAML documents equal as multisets; walk visits equal with order preserved inside a root; mkdir snapshots equal; verify verdict equal. Schedules are perturbed (GOMAXPROCS, reader chunking, yielding writer/callback, Gosched/sleep at 22 hook points). Also failing callbacks (error iff and identical error), reader/writer dynamic types (io.WriterTo, io.StringWriter, *bytes.Reader, regular file, *bufio.Reader, *bytes.Buffer), walker nodes re-read after the walk, mkdir on a file system that runs full. Process umasks 000/002/027/077 during mkdir.",
             "schedules are sampled and perturbed through the verif hook, not enumerated; three listed known findings (massive mkdir atomicity / exist check, mixed list+heading roots) are excluded by classifier and probed on every run",
             PBT + ": differential testing (massive vs simple) under generated schedule perturbations"),
     "C11": ("fault_enumeration",
-            "Every massive-mode call runs in a worker with a hang watchdog (blocked-goroutine confirmation) and a goroutine-leak scan; documents with 0..12 failing blocks at drawn stages x reader/writer/callback failure at an index x cancellation (before, inside the Read crossing byte k, timer, deadline, at a write, at a callback) x perturbed schedules. Enumerated: every cancel offset, reader offset, writer index and callback index of a panel of documents. The same scenarios under -race. Also worker processes started with GOMAXPROCS=1 and confined to one CPU (taskset), readers that are io.Closer / *bufio.Reader, callback error values from the standard library, a file system that runs full, and an input that goes quiet (idle pipe) while the context is cancelled.",
+            "Every massive-mode call runs in a worker with a hang watchdog (blocked-goroutine confirmation) and a goroutine-leak scan; documents with 0..12 failing blocks at drawn stages x reader/writer/callback failure at an index x cancellation (before, inside the Read crossing byte k, timer, deadline, at a write, at a callback) x perturbed schedules. Enumerated: every cancel offset, reader offset, writer index and callback index of a panel of documents. The same scenarios under -race. Also worker processes started with GOMAXPROCS=1 and confined to one CPU (taskset), readers that are io.Closer / *bufio.Reader, callback error values from the standard library, a file system that runs full, and an input that goes quiet (idle pipe) while the context is cancelled. Callbacks that end their goroutine (runtime.Goexit) or call the library on the same tree; the deprecated aliases as entry points.",
             "schedules are perturbed, not enumerated: a leak or race needing an interleaving outside the reach of GOMAXPROCS/delay perturbation can be missed; the race detector only sees executed accesses; 'bounded time' = 20 s watchdog + identical blocked stacks",
             "fault injection / fault enumeration over generated inputs: every byte offset and write index, cancellation points, goroutine-leak scan, race detector"),
     "C12": ("exploration",
-            "Grammar-aware mutation of valid documents (13 mutation kinds incl. 64 KiB lines, NUL, invalid UTF-8, blank-only, bullet-only, indented first line) x every entry point (real Mkdir in a chroot) x {simple, massive} in isolated workers with a hang watchdog; semantic oracles sound for arbitrary bytes (iterator vs slice path, walk rows vs text, JSON node count, final newline); blank input => nil and nothing produced. Thorough adds coverage-guided native fuzzing (go test -fuzz, 16 workers) seeded from /repo/testdata and hostile constants. Option values: extension lists of regexp/format/path metacharacters, invalid UTF-8 and 5000-byte values, arbitrary branch strings, strict verify, target spellings, reader types; worker processes with one P / one CPU. Endless loops are detected (busy-loop watchdog).",
+            "Grammar-aware mutation of valid documents (13 mutation kinds incl. 64 KiB lines, NUL, invalid UTF-8, blank-only, bullet-only, indented first line) x every entry point (real Mkdir in a chroot) x {simple, massive} in isolated workers with a hang watchdog; semantic oracles sound for arbitrary bytes (iterator vs slice path, walk rows vs text, JSON node count, final newline); blank input => nil and nothing produced. Thorough adds coverage-guided native fuzzing (go test -fuzz, 16 workers) seeded from /repo/testdata and hostile constants. Option values: extension lists of regexp/format/path metacharacters, invalid UTF-8 and 5000-byte values, arbitrary branch strings, strict verify, target spellings, reader types; worker processes with one P / one CPU. Endless loops are detected (busy-loop watchdog). Also through the deprecated exported functions.",
             "native fuzz campaigns are not reproducible from a seed (their saved inputs are); real Mkdir on arbitrary bytes is driven only from the rapid side (a fuzz worker cannot chroot itself)",
             "fuzzing: grammar-aware mutation (rapid) + coverage-guided native go fuzzing with in-target semantic oracles"),
     "C13": ("exploration",
-            "Stateful, model-based: rapid state machine over NewRoot / Add (any node of any live tree, names that may not be path elements) / any From-Root operation / iterators created now and ranged over later / From-Markdown calls in between (fresh spelling each time, option-less verify) / repeat, with one caller-owned extension slice reused by every call; the model forest is compared after every step; ALL histories up to length 5/7 over an 11-symbol alphabet with two trees; the same histories split over 2..24 goroutines (also massive, also under -race), concurrent independent From-Markdown calls (text and dry-run) and bursts of 2..64 simultaneous massive calls. One WithMassive option value is shared by all calls of a machine, histories contain failing calls, directories are made at the same absolute path in every step, concurrent From-Markdown calls may write to *os.File and use WithMassive, calls with failing readers surround the concurrent ones.",
+            "Stateful, model-based: rapid state machine over NewRoot / Add (any node of any live tree, names that may not be path elements) / any From-Root operation / iterators created now and ranged over later / From-Markdown calls in between (fresh spelling each time, option-less verify) / repeat, with one caller-owned extension slice reused by every call; the model forest is compared after every step; ALL histories up to length 5/7 over an 11-symbol alphabet with two trees; the same histories split over 2..24 goroutines (also massive, also under -race), concurrent independent From-Markdown calls (text and dry-run) and bursts of 2..64 simultaneous massive calls. One WithMassive option value is shared by all calls of a machine, histories contain failing calls, directories are made at the same absolute path in every step, concurrent From-Markdown calls may write to *os.File and use WithMassive, calls with failing readers surround the concurrent ones. Error values of failed From-Markdown calls are kept and re-read later; one option array with spare capacity serves iterator walks (prefix) and JSON calls (whole); a verify whose directory walk fails precedes a verify with a missing path at the same absolute path.",
             "concurrent schedules are sampled (GOMAXPROCS 1/2/4/16, Gosched between steps)",
             PBT + ": stateful model-based testing (rapid state machine), bounded-exhaustive histories, concurrent histories"),
     "C14": ("fault_enumeration",
-            "For each document: the reader fails after EVERY byte offset (two failure shapes, three chunkings) => errors.Is(err, E); the writer fails at EVERY write index (plain, short write, one-off) => non-nil error; all output modes x {From-Markdown, From-Root} x {simple, massive}, plus reader faults for walk/mkdir/verify. Reader/writer dynamic types (io.WriterTo, io.StringWriter, io.Closer, *bufio.Reader), a failing Write that reports the full count, and an empty regular file opened write-only as reader (EBADF).",
+            "For each document: the reader fails after EVERY byte offset (two failure shapes, three chunkings) => errors.Is(err, E); the writer fails at EVERY write index (plain, short write, one-off) => non-nil error; all output modes x {From-Markdown, From-Root} x {simple, massive}, plus reader faults for walk/mkdir/verify. Reader/writer dynamic types (io.WriterTo, io.StringWriter, io.Closer, *bufio.Reader), a failing Write that reports the full count, and an empty regular file opened write-only as reader (EBADF). The error may arrive with the last bytes once; bare io.EOF / io.ErrUnexpectedEOF / io.ErrShortWrite as writer errors.",
             "writer faults are observed through a recording writer; in massive mode the number of writes is that of the fault-free run of the same schedule class",
             "fault enumeration: reader failure at every byte offset, writer failure at every write index, over generated documents"),
     "C15": ("exploration",
-            "Metamorphic, model-free: one forest, two independently drawn spellings (unit, tabs, bullets per line, heading roots, blank and Unicode-blank lines, CRLF, final newline); outputs in every mode (also massive, compared as multisets of lines), walk visits, mkdir snapshots and verify verdict/reports must be identical. Exhaustive: forests <=4/7 nodes x all 15 pairs of the 6-spelling panel. Plus the mixed root notation (first k roots as list items, the rest as # headings) for every split point, and several reader types.",
+            "Metamorphic, model-free: one forest, two independently drawn spellings (unit, tabs, bullets per line, heading roots, blank and Unicode-blank lines, CRLF, final newline); outputs in every mode (also massive, compared as multisets of lines), walk visits, mkdir snapshots and verify verdict/reports must be identical. Exhaustive: forests <=4/7 nodes x all 15 pairs of the 6-spelling panel. Plus the mixed root notation (first k roots as list items, the rest as # headings) for every split point, and several reader types. The whole input as one row with / without its terminator around 64 KiB.",
             "the speller produces exactly the notation family of the statement (no other liberties); heading spelling only when root names have no edge blanks",
             PBT + ": metamorphic relation between two generated spellings of one forest"),
     "C16": ("exploration",
-            "The binary built from /repo/cmd/gtree runs in a jail; the library runs in-process on the same input in an identical jail: stdout equal (multiset of lines with --massive), filesystem snapshots equal, exit 0 iff (valid command line and file opened and library nil and stdout accepted every byte), diagnostic on stderr, never a crash; 'template | output' equals the README tree. Also --massive-timeout 1ns (library under an expired deadline), --watch (without a file, with an unopenable file, and following a file through one change), stdin /dev/null, stdout a pipe without a reader, mkdir on a file system that runs full.",
+            "The binary built from /repo/cmd/gtree runs in a jail; the library runs in-process on the same input in an identical jail: stdout equal (multiset of lines with --massive), filesystem snapshots equal, exit 0 iff (valid command line and file opened and library nil and stdout accepted every byte), diagnostic on stderr, never a crash; 'template | output' equals the README tree. Also --massive-timeout 1ns (library under an expired deadline), --watch (without a file, with an unopenable file, and following a file through one change), stdin /dev/null, stdout a pipe without a reader, mkdir on a file system that runs full. Documents starting with a byte order mark; --target-dir ~ / ~/out.",
             "the mapping from flags to library options is the oracle's reading of the documented flags; extensions that the flag parser cannot express (blank edges, commas) are not generated; a closed stdout is accepted as /dev/null (Go runtime re-opens it); the web subcommand is excluded",
             PBT + ": differential testing CLI vs library over generated command lines, documents, stdout states and directory states"),
     "C17": ("exploration",
